@@ -16,6 +16,12 @@ Str(x) == ToString(x)
 AddViol(viol, sigs, id) ==
     viol \cup {[sig |-> x, id |-> id] : x \in {y \in sigs : \A v \in viol : v.sig # y}}
 
+\* C09: at teardown of a connection nothing the library received may stay open, and nothing that
+\* was open before may have been closed by it
+TeardownViol(e, eng) ==
+    (IF e.nleaked > 0 THEN {"C09/" \o eng \o "/descriptor-leaked-after-teardown"} ELSE {})
+    \cup (IF e.nlost > 0 THEN {"C09/" \o eng \o "/foreign-descriptor-closed"} ELSE {})
+
 \* printed once, from the state that has consumed the whole trace
 ReportAt(l, judged, viol) ==
     (l = Len(Rec) + 1) => PrintT(<<"TVVIOL", ToJson([judged |-> judged, viol |-> viol])>>)
